@@ -3,6 +3,20 @@ import json, os
 ROOT = os.path.dirname(os.path.dirname(os.path.abspath(__file__)))
 
 CHECKS = {
+    "C14": dict(
+        category="exploration",
+        text="Robustness runtime monitor: mutated programs (token and byte level), shipped sources, token soup and random bytes go through every tool entry point in crash-isolated shard processes with an 8 MiB stack; panics are caught and located, a dead process is blamed on the input whose BEGIN marker has no END, a watchdog stop is confirmed by an isolated re-run with a larger budget before it counts as non-termination; modern compile errors must lie inside the text they name.",
+        design_ref="DESIGN.md §4 C14",
+        note="inputs up to 6 KiB and nesting <= 200; REPL locations not bounds-checked",
+        technique="runtime fault monitoring under hostile inputs (panic hooks, process supervision, gdb stack signatures)",
+    ),
+    "C15": dict(
+        category="exploration",
+        text="Runtime monitor of the reader's source locations against layouts the harness generates itself (so every token span is known): exact leaf spans, list containment, bytewise parser == whole parser including locations, in-bounds error locations on mutants.",
+        design_ref="DESIGN.md §4 C15",
+        note="tab-free layouts; #( structured lists only in the bytewise==whole stratum",
+        technique="runtime invariant monitoring with generated ground truth",
+    ),
     "C03": dict(
         category="exploration",
         text="Reference-model runtime monitor for the classic compiler: a 1..40-parameter sweep and random sigil-free programs are compiled by compile_clvm_text, run by clvmr and compared with the reference interpreter; the cl21 build of the same text is a second oracle on the shared subset.",
